@@ -139,13 +139,20 @@ def show_tdef(td):
     return go(dummy)
 
 
+def _vb(x):
+    """a variadic binding as (broadcastable, shape), whatever record the tree keeps it in"""
+    if isinstance(x, tuple):
+        return x
+    return (getattr(x, "broadcastable"), tuple(getattr(x, "shape")))
+
+
 def show_state():
     from jaxtyping import _storage as _stg
     from jaxtyping._storage import get_shape_memo, _treepath_storage
     get_treeflatten_memo = getattr(_stg, "get_treeflatten_memo", lambda: False)      # (the flag may live elsewhere after a refactor)
     single, variadic, pytree, _ = get_shape_memo()
     s = ",".join("%s=%d" % (k, v) for k, v in single.items())
-    v = ",".join("%s=%s%s" % (k, "T" if b else "F", "(" + ",".join(str(int(x)) for x in sh) + ")") for k, (b, sh) in variadic.items())
+    v = ",".join("%s=%s%s" % (k, "T" if b else "F", "(" + ",".join(str(int(x)) for x in sh) + ")") for k, (b, sh) in ((k_, _vb(x_)) for k_, x_ in variadic.items()))
     t = ",".join("%s=%s" % (k, show_tdef(td)) for k, td in pytree.items())
     path = getattr(_treepath_storage, "value", None)
     return "S{%s} V{%s} T{%s} path=%s flat=%s" % (s, v, t, "-" if path is None else path, "T" if get_treeflatten_memo() else "F")
@@ -154,7 +161,7 @@ def show_state():
 def snap():
     from jaxtyping._storage import get_shape_memo
     m = get_shape_memo()
-    return [list(m[0].items()), [(k, (b, tuple(sh))) for k, (b, sh) in m[1].items()], [(k, str(v)) for k, v in m[2].items()]]
+    return [list(m[0].items()), [(k, (b, tuple(sh))) for k, (b, sh) in ((k_, _vb(x_)) for k_, x_ in m[1].items())], [(k, str(v)) for k, v in m[2].items()]]
 
 
 def do_check(ann, val):
